@@ -415,7 +415,9 @@ func (c *Ctx) summary(s *sizeCtx, fi *FuncInfo) Lin {
 					if v, ok := t.Env.vals[o]; ok && v.K == VNonNil {
 						continue
 					}
-					if _, isDef := t.Env.defs[o]; isDef {
+					if v, ok := t.Env.vals[o]; ok && v.K == VNil {
+						// tested (or forked at the return) nil: a success path
+					} else if _, isDef := t.Env.defs[o]; isDef {
 						// untested error variable: ambiguous, treat as error path of the helper
 						continue
 					}
